@@ -413,7 +413,7 @@ def run_suite(ctx, exe, suite, lines, what, env=None, max_report=4, canon_c=None
             specbad += 1
             if reported < max_report:
                 reported += 1
-                ctx.violation("%s:%s" % (suite, l), "%s: `%s` gives %r, the property requires %r" % (what, l if len(l) < 200 else l[:200] + "...", clip(c), clip(spec)),
+                ctx.violation("%s:%s" % (suite, l), "%s: `%s` gives %r, the property requires %r" % (what, l if len(l) < 200 else l[:200] + "...", clip(c), clip(spec if spec not in (None, "any") else "a result without sanitizer report / crash")),
                               {"kind": "line", "suite": suite, "line": l, "observed": c, "expected": spec, "model": mm})
     ctx.oblige("correspondence", "%s: C = model on %d lines" % (suite, len(lines)), not dis and not crashes,
                "%d disagreements, %d crashes%s" % (len(dis), len(crashes), ("; first: %r" % (dis[0][1:],)) if dis else ""))
